@@ -28,7 +28,7 @@ import corpus18
 import gensql
 import sqlcheck
 import sqlimpl
-from common import Check, Driver, Infra, canon_json, log
+from common import Check, Driver, Infra, canon_json, leanchecker, log
 from gensql import (col, derived, eq, from_expr, func, item, join, lit, select, setop, table, with_)
 
 NEED_DRIVER = True
@@ -476,14 +476,14 @@ def gen_cases(chk):
         # quick: every third shape, rotating with the seed (the bounded-exhaustive set is covered by C01/C02 and by thorough)
         shapes = [s for i, s in enumerate(shapes) if i % 3 == chk.seed % 3]
     else:
-        shapes = [s for i, s in enumerate(shapes) if i % 4 == chk.seed % 4]
+        shapes = [s for i, s in enumerate(shapes) if i % 5 == chk.seed % 5]
     cases += [(n, [s], None) for n, s in shapes]
-    n_rand = 2500 if chk.tier == "thorough" else 220
+    n_rand = 1500 if chk.tier == "thorough" else 220
     R = gensql.Rand(chk.rng, max_depth=3 if chk.tier == "thorough" else 2)
     for i in range(n_rand):
         d = chk.rng.choice([1, 2, 2, 3, 4]) if chk.tier == "thorough" else chk.rng.choice([1, 2, 2])
         cases.append((f"rand-{i}", [R.stmt(d)], None))
-    n_scripts = 700 if chk.tier == "thorough" else 70
+    n_scripts = 400 if chk.tier == "thorough" else 70
     for i in range(n_scripts):
         cases.append((f"script-{i}", random_script(chk, R), None))
     return cases
@@ -900,7 +900,12 @@ def run(chk):
     drv = Driver()
     st = sqlcheck.Stats()
     thorough = chk.tier == "thorough"
-    dialects = ["ansi", "sparksql", "tsql", "bigquery", "postgres", "snowflake", "mysql", "redshift"] if thorough else ["ansi", "sparksql", "bigquery"]
+    if thorough and chk.lean.build_ok:
+        ok, out = leanchecker(["SqlLineage.Props.C18", "SqlLineage.Proofs.ExportLemmas", "SqlLineage.Model.Export"])
+        chk.coverage["leanchecker"] = "accepted" if ok else "REJECTED: " + out[-300:]
+        if not ok:
+            chk.lean.forbidden.append("leanchecker rejected SqlLineage.Props.C18: " + out[-300:])
+    dialects = ["ansi", "sparksql", "tsql", "bigquery", "postgres", "snowflake"] if thorough else ["ansi", "sparksql", "bigquery"]
     try:
         replay_finding(chk, drv, st)
         n_direct = part_direct(chk, drv, st)
@@ -925,7 +930,7 @@ def run(chk):
         rule="corpus = every SQL the repository's tests pass to LineageRunner (harvested by parsing tests/ with `ast`, both the sqlfluff "
              "dialect and the legacy parser) + data/tpcds/*.sql (quick: a third of them, rotating with the seed); generated = "
              "export-specific shapes (owners printing alike, shared owners, bare columns named like owners, CTEs, DDL/drop/rename "
-             "scripts, metadata) + gensql.enumerate_shapes (a third / a quarter, rotating) + seeded random statements and 2-4 statement "
+             "scripts, metadata) + gensql.enumerate_shapes (a third / a fifth, rotating) + seeded random statements and 2-4 statement "
              "scripts, under the listed dialects; a share of all inputs goes through POST /lineage; direct = io.to_cytoscape on "
              "hand-made graphs in every node order. Each result: structural oracle on the implementation alone; generated/direct: "
              "exact comparison with the model's export. non-trivial = the export has at least one edge; distinct by (route, SQL, "
